@@ -392,6 +392,35 @@ class C19(core.Check):
                                   {'x_row': xo[i], 'y_row': yo[i]})
         # assumptions about torch's draws, checked on what was captured
         dr = case.get('draws') or {}
+        # a configured mixup mode must act: if the captured draws select at least one position whose partner entry
+        # differs, the mixed batch cannot be the input batch (a mode that is silently ignored still draws)
+        if case['mode'] in ('feature', 'hidden') and B > 0 and dr.get('perm') and dr.get('rates') and dr.get('u') \
+                and len(dr['perm']) == B and len(dr['rates']) == B and len(dr['u']) == B:
+            swaps = False
+            for i in range(B):
+                rate = core.bits_float(dr['rates'][i])
+                pi = dr['perm'][i]
+                for j, ub in enumerate(dr['u'][i]):
+                    if core.bits_float(ub) < rate:
+                        continue                       # kept from the row itself
+                    if case['mode'] == 'feature' and j < F:
+                        own, par = x[i][j], x[pi][j]
+                    elif case['mode'] == 'hidden' and j < D:
+                        own, par = [x[i][f][j] for f in range(F)], [x[pi][f][j] for f in range(F)]
+                    else:
+                        continue
+                    if any(a != b and not (a != a and b != b) for a, b in zip(own, par)):
+                        swaps = True
+                        break
+                if swaps:
+                    break
+            same = all(a == b or (a != a and b != b)
+                       for ri, ro in zip(x, xo) for ci, co in zip(ri, ro) for a, b in zip(ci, co))
+            if swaps and same:
+                return core.Violation(f"{case['kind']}/{case['mode']}/mode-ignored",
+                                      f"mixup mode {case['mode']!r} is configured and the captured draws select a swap "
+                                      'with a differing partner entry, but the features came back unchanged', case,
+                                      'at least one swapped column / channel', 'input batch returned as is')
         if dr.get('perm') and sorted(dr['perm']) != list(range(B)):
             return core.Violation(f"{case['kind']}/perm", 'randperm did not return a permutation', case)
         if any(not (0.0 <= core.bits_float(r) <= 1.0) for r in dr.get('rates', [])):
